@@ -211,6 +211,13 @@ func (v *FnVC) evalTerm(x Expr, env *Env) Term {
 	case *EIdent:
 		return v.evalIdent(e.Name, env)
 	case *EUnary:
+		if e.Op == "&" {
+			id, ok := e.X.(*EIdent)
+			if !ok {
+				v.fail("& is only supported on local variable names")
+			}
+			return v.evalIdent("&"+id.Name, env)
+		}
 		a := v.evalTerm(e.X, env)
 		switch e.Op {
 		case "!":
@@ -287,6 +294,9 @@ func (v *FnVC) evalTerm(x Expr, env *Env) Term {
 func (v *FnVC) substr(s, lo, hi string) string {
 	t := fmt.Sprintf("(substr_s %s %s %s)", s, lo, hi)
 	key := "substr:" + t
+	if strings.Contains(t, "q_") {
+		return t
+	}
 	if !v.implFacts[key] {
 		v.implFacts[key] = true
 		// length and bytes of a substring (valid range only)
@@ -301,6 +311,11 @@ func (v *FnVC) substr(s, lo, hi string) string {
 func (v *FnVC) evalIdent(name string, env *Env) Term {
 	if t, ok := env.vars[name]; ok {
 		return t
+	}
+	if strings.HasPrefix(name, "&") {
+		if t, ok := v.addrOfLocal(name[1:]); ok {
+			return t
+		}
 	}
 	if env.lookup != nil {
 		if t, ok := env.lookup(name); ok {
@@ -453,6 +468,9 @@ func (v *FnVC) goMod(a, b string) string {
 func (v *FnVC) concat(a, b string) string {
 	t := fmt.Sprintf("(concat_s %s %s)", a, b)
 	key := "concat:" + t
+	if strings.Contains(t, "q_") {
+		return t // under a quantifier: no ground instance axioms
+	}
 	if !v.implFacts[key] {
 		v.implFacts[key] = true
 		v.asserts = append(v.asserts, fmt.Sprintf("(= (len_s %s) (+ (len_s %s) (len_s %s)))", t, a, b))
@@ -890,13 +908,80 @@ func (v *FnVC) unfoldRec(ra recApp) {
 	v.asserts = append(v.asserts, fmt.Sprintf("(= %s %s)", app, body.S))
 }
 
-// emitAxioms asserts the axioms of all contract files in scope.
+// emitAxioms asserts the axioms in scope that mention a spec symbol used by this function's VC (demand driven,
+// iterated to a fixpoint because an axiom may bring in further symbols).
 func (v *FnVC) emitAxioms() {
-	for _, ax := range v.W.AxiomsFor(v.Fn.Pkg.Pkg) {
-		env := &Env{v: v, vars: map[string]Term{}, st: v.entry, old: v.entry, pkg: v.W.PkgTypes(ax.Pkg)}
-		f := v.evalBool(ax.E, env)
-		v.asserts = append(v.asserts, f)
+	axs := v.W.AxiomsFor(v.Fn.Pkg.Pkg)
+	done := map[*Axiom]bool{}
+	for changed := true; changed; {
+		changed = false
+		for _, ax := range axs {
+			if done[ax] {
+				continue
+			}
+			syms := v.W.axiomSymbols(ax)
+			use := len(syms) == 0
+			for _, sname := range syms {
+				if v.S.funcs["sf_"+sanitize(sname)] {
+					use = true
+				}
+			}
+			if !use {
+				continue
+			}
+			done[ax] = true
+			changed = true
+			v.assumedCallees["axiom "+ax.Name+": "+ax.Text] = true
+			env := &Env{v: v, vars: map[string]Term{}, st: v.entry, old: v.entry, pkg: v.W.PkgTypes(ax.Pkg)}
+			f := v.evalBool(ax.E, env)
+			v.asserts = append(v.asserts, f)
+		}
 	}
+}
+
+// axiomSymbols lists the uninterpreted / recursive spec functions an axiom mentions (through pure functions too).
+func (w *World) axiomSymbols(ax *Axiom) []string {
+	seen := map[string]bool{}
+	var out []string
+	var walk func(e Expr)
+	walk = func(e Expr) {
+		switch x := e.(type) {
+		case *EUnary:
+			walk(x.X)
+		case *EBinary:
+			walk(x.X)
+			walk(x.Y)
+		case *ECond:
+			walk(x.C)
+			walk(x.A)
+			walk(x.B)
+		case *EQuant:
+			walk(x.Body)
+		case *ESel:
+			walk(x.X)
+		case *EIndex:
+			walk(x.X)
+			walk(x.I)
+		case *ESlice:
+			walk(x.X)
+		case *ECall:
+			for _, a := range x.Args {
+				walk(a)
+			}
+			if id, ok := x.Fun.(*EIdent); ok {
+				if sf := w.specFuncs[id.Name]; sf != nil && !seen[id.Name] {
+					seen[id.Name] = true
+					if sf.Kind == "pure" {
+						walk(sf.Body)
+					} else {
+						out = append(out, sf.Name)
+					}
+				}
+			}
+		}
+	}
+	walk(ax.E)
+	return out
 }
 
 // loopEnv builds the environment for a loop invariant.
@@ -1015,4 +1100,21 @@ func (v *FnVC) baseEnv() *Env {
 		env.vars["&"+fv.Name()] = v.vals[fv]
 	}
 	return env
+}
+
+// addrOfLocal returns the address of an address-taken local variable by source name.
+func (v *FnVC) addrOfLocal(name string) (Term, bool) {
+	for _, b := range v.Fn.Blocks {
+		for _, ins := range b.Instrs {
+			d, ok := ins.(*ssa.DebugRef)
+			if !ok || !d.IsAddr || identName(d) != name {
+				continue
+			}
+			if _, isAlloc := d.X.(*ssa.Alloc); !isAlloc {
+				continue
+			}
+			return Term{S: v.val(d.X).S, Sort: "Int", T: d.X.Type()}, true
+		}
+	}
+	return Term{}, false
 }
